@@ -273,6 +273,44 @@ def add_tags(draw, spec):
     return spec
 
 
+def add_layout_gadget(draw, spec):
+    """two data wrappers that are views of ONE buffer with the same start
+    address, shape and dtype but (for kinds T / step) different strides,
+    combined into an extra output: deduplicate_data_wrappers may merge them
+    only when the layout is the same too."""
+    import numpy as np
+    kind = draw(st.sampled_from(["T", "step", "same"]))
+    dtype = draw(st.sampled_from(["float64", "int32", "float32"]))
+    arena = 1000 + len(spec["nodes"])
+    if kind == "step":
+        m = draw(st.integers(2, 4))
+        base = [draw(st.integers(-9, 9)) for _ in range(2 * m)]
+        a = {"values": base[::2], "shape": [m], "kind": "step2"}
+        b = {"values": base[:m], "shape": [m], "kind": "prefix"}
+        bshape = [2 * m]
+    else:
+        n = draw(st.integers(2, 3))
+        base = [draw(st.integers(-9, 9)) for _ in range(n * n)]
+        arr = np.array(base).reshape(n, n)
+        a = {"values": base, "shape": [n, n], "kind": "plain"}
+        b = ({"values": [int(x) for x in arr.T.flatten()], "shape": [n, n],
+              "kind": "T"} if kind == "T" else dict(a))
+        bshape = [n, n]
+    nodes = spec["nodes"]
+    idx = []
+    for d in (a, b):
+        nodes.append({"op": "data", "p": {
+            "dtype": dtype, "scale": 0, "shape": d["shape"],
+            "values": d["values"],
+            "view": {"arena": arena, "kind": d["kind"], "base_values": base,
+                     "base_shape": bshape}}})
+        idx.append(len(nodes) - 1)
+    nodes.append({"op": "mul", "args": [["n", idx[1]], ["py", 2]]})
+    nodes.append({"op": "sub", "args": [["n", idx[0]], ["n", len(nodes) - 1]]})
+    spec["outputs"] = list(spec["outputs"]) + [["layout", len(nodes) - 1]]
+    return spec
+
+
 @st.composite
 def cases(draw):
     cfg = progen.GenCfg(min_ops=4, max_ops=12, dup_prob=0.2, max_len=4,
@@ -282,6 +320,8 @@ def cases(draw):
     spec = gc(spec)
     # duplicate one data input node's content occasionally
     spec = add_tags(draw, spec)
+    if draw(st.integers(0, 3)) == 0:
+        spec = add_layout_gadget(draw, spec)
     n = draw(st.integers(1, 4))
     pipeline = [draw(st.sampled_from(TNAMES)) for _ in range(n)]
     return {"spec": spec, "pipeline": pipeline}, vals
